@@ -298,9 +298,19 @@ def gen_case(rng, thorough=False):
     counter = {}
     tcounter = {}
     cfg0 = {}
+    pfull = rng.choice([0.55, 0.55, 0.9, 1.0])
     for k in keys:
-        if rng.random() < 0.55:
+        if rng.random() < pfull:
             cfg0[k] = cfg_value_choices(k, rng, counter)
+    if fam in ("emod", "mixed") and rng.random() < 0.6:
+        # start from one complete scenario: drop the keys of the others
+        scen = rng.choice("ABC")
+        drop = {"A": ["emodulus temperature", "emodulus viscosity"],
+                "B": ["emodulus medium", "emodulus temperature"],
+                "C": ["emodulus viscosity"]}[scen]
+        for name in drop:
+            cfg0.pop(kid("calculation", name), None)
+        cfg0.pop(kid("setup", "chip region"), None)
     temps0 = {}
     for t in temps:
         if rng.random() < 0.3:
@@ -309,8 +319,15 @@ def gen_case(rng, thorough=False):
     ops = []
     nops = rng.randint(4, 28 if not thorough else 40)
     present = set(cfg0)
+    mutated = False
     for _ in range(nops):
         r = rng.random()
+        if mutated and r < 0.6:
+            # read right after a change: where stale values show
+            ops.append([3, F_ID[rng.choice(reads)], 0])
+            mutated = False
+            continue
+        mutated = r < 0.50
         if r < 0.27:
             k = rng.choice(keys)
             ops.append([0, k, cfg_value_choices(k, rng, counter)])
@@ -634,6 +651,23 @@ def render(case):
                                    pairs(case["cfg0"]), "; ".join(ops))
 
 
+def read_positions(case):
+    """indices in the flat code list holding the long-lived/fresh code of
+    a Read"""
+    pos = []
+    k = 0
+    nn = len(anc_names())
+    for tag, _a, _b in case["ops"]:
+        if tag == 3:
+            pos.append(k)
+            k += 2
+        elif tag == 4:
+            k += 2
+        elif tag == 5:
+            k += nn
+    return pos
+
+
 def load_corpus():
     d = os.path.join(common.VERIF, "corpus", PROP)
     cases = []
@@ -722,10 +756,30 @@ def run(run):
                 f["what"], f["op"], json.dumps(f["ctx"])), fid)
     model = common.coq_map(run.scratch, "c06", HEADER, "run_flat registry",
                            [render(c) for c in cases], shard=40)
+    stale_pred = 0
+    coincid = []
     for c, m, i in zip(cases, model, impl):
         run.corr_checked += 1
+        stale_pred += sum(1 for x in read_positions(c) if x < len(m)
+                          and m[x] == 1)
         if m != i:
+            # the model predicts "not the fresh value" from the ingredients;
+            # numerically the stale and the fresh value may coincide (e.g.
+            # bright_bc_sd is invariant under bg_off). Only that direction,
+            # only at read positions, is tolerated (and counted).
+            pos = set(read_positions(c))
+            if len(m) == len(i) and all(
+                    a == b or (k in pos and a == 1 and b == 0)
+                    for k, (a, b) in enumerate(zip(m, i))):
+                coincid.append(c)
+                continue
             run.mismatch(c, m, i)
+    run.count("model-stale-predictions", stale_pred)
+    run.count("value-coincidences", len(coincid))
+    if len(coincid) > max(3, 0.08 * max(1, stale_pred)):
+        run.mismatch(coincid[0], "stale predicted", "fresh value observed",
+                     what="too many stale predictions not observed (%d of %d)"
+                     % (len(coincid), stale_pred))
     emodulus_table(run)
 
 
